@@ -544,7 +544,7 @@ def canon_reply(f):
             shape = "..self" if recv == "submsg" else "msg:self.into(),gas_limit:None"
             # (an existing sub-message keeps its message and gas limit: by `..self` or field by field)
             ok_shape = (".. self" in b or ("msg : self . msg" in b and "gas_limit : self . gas_limit" in b)) if recv == "submsg" \
-                else ("msg : self . into ()" in b and "gas_limit : None" in b)
+                else (("msg : self . into ()" in b or "msg : Into :: into (self)" in b) and "gas_limit : None" in b)
             descs.add("%s:%s%s" % (ro.group(1) if ro else "?", pm, "" if ok_shape else ":unexpected_shape(%s)" % recv))
         params = []
         i = 1
@@ -562,20 +562,24 @@ def canon_reply(f):
 
 
 def payload_mode_of_builder(b):
-    m = re.search(r"let payload = sylvia :: cw_std :: to_json_binary \(& \((.*?)\)\) \? ;", b)
+    # the variable that ends up in the `payload` field of the sub-message, whatever it is called
+    mv = re.search(r"\bpayload(?: : (\w+))? [,}]", b)
+    var = (mv.group(1) if mv and mv.group(1) else "payload")
+    m = re.search(r"let %s = (?:match )?sylvia :: cw_std :: to_json_binary \(& \((.*?)\)\)(?: \? ;| \{)" % re.escape(var), b)
     if m:
         return "typed(%s)" % ",".join(x.strip() for x in m.group(1).split(",") if x.strip())
-    m = re.search(r"let payload = (\w+) ;", b)
+    m = re.search(r"let %s = (\w+) ;" % re.escape(var), b)
     if m:
         return "raw(%s)" % m.group(1)
     return "unparsed"
 
 
 def payload_mode_of_arm(b):
-    m = re.search(r"let \((.*?)\) = sylvia :: cw_std :: from_json \(& payload\) \? ;", b)
+    # (the reply's payload may have been bound to any name)
+    m = re.search(r"let \((.*?)\) = (?:match )?sylvia :: cw_std :: from_json \(& \w+\)(?: \? ;| \{)", b)
     if m:
         return "typed(%s)" % ",".join(x.strip() for x in m.group(1).split(",") if x.strip())
-    m = re.search(r"let (\w+) = payload ;", b)
+    m = re.search(r"let (\w+) = (?:payload|raw_payload|msg \. payload) ;", b)
     if m:
         return "raw(%s)" % m.group(1)
     return "unparsed"
@@ -588,13 +592,14 @@ def data_mode_of_arm(b, has_data_arg):
         return "none"
     inst = "parse_instantiate_response_data" in b
     exe = "parse_execute_response_data" in b
-    absent_is_none = re.search(r"None => None\b", b) is not None          # optional modes map missing data to None
+    # optional modes map missing data to None (a `match` arm, or the `else` of an `if let Some(..)`)
+    absent_is_none = re.search(r"None => None\b|\} else \{ None \}", b) is not None
     if inst:
         return "inst_opt" if absent_is_none else "inst"
     if exe:
         return "opt" if absent_is_none else "typed"
     # raw modes: the bytes are handed over as they are; the mandatory one rejects absence
-    return "raw" if re.search(r"None => return Err\b|None => Err\b", b) else "raw_opt"
+    return "raw" if re.search(r"None => return Err\b|None => Err\b|= data else \{ return Err\b", b) else "raw_opt"
 
 
 HANDLER_CALL = re.compile(
